@@ -121,7 +121,7 @@ func (x *Exec) pureCallValue(fr *Frame, st *State, fn *ssa.Function, fc *FuncCon
 		res, _ = x.m().fromLeaves(rt, []*Term{res.X})
 	}
 	x.assumeTypeInv(st, res)
-	env := &CEnv{x: x, fr: fr, st: st, old: st, pkg: pkg, vars: map[string]Value{}, mode: x.m(), hasResult: true, result: res, sig: fn.Signature}
+	env := &CEnv{x: x, fr: fr, st: st, old: st, pkg: pkg, vars: map[string]Value{}, mode: x.m(), hasResult: true, result: res, sig: fn.Signature, calleeEnv: true}
 	for i, p := range fn.Params {
 		a := args[i]
 		a.T = p.Type()
